@@ -407,9 +407,9 @@ def _judge_alone(out, comp, ins, rng, eps, tag):
 @st.composite
 def bespoke_cfg(draw):
     which = draw(st.sampled_from(["taper", "rotate_norx", "rotate", "monotonic", "energy", "atmos", "reynolds", "unification",
-                                  "join", "mux_demux", "failure_exact"]))
+                                  "join", "mux_demux", "failure_exact", "multicd", "spar_within_wing", "fuel_vol_delta"]))
     d = dict(which=which, seed=draw(st.integers(0, 10 ** 6)), eps=draw(st.sampled_from([0.0, 1e-3, 0.03])))
-    if which in ("taper", "rotate", "rotate_norx", "monotonic", "energy", "failure_exact"):
+    if which in ("taper", "rotate", "rotate_norx", "monotonic", "energy", "failure_exact", "spar_within_wing", "fuel_vol_delta"):
         d["mesh"] = draw(S.mesh(kinds=("left", "full", "asym", "right"), nx=(2, 4), nyh=(2, 4), winglet=True))
         d["ref_axis_pos"] = draw(st.sampled_from(REF_AXIS))
         d["taper"] = draw(S.fl(0.2, 1.5, 1.0, 1.0))
@@ -465,7 +465,7 @@ def bespoke_verdict(desc):
     w = desc["which"]
     out.label("bespoke=" + w)
     n = 0
-    if w in ("taper", "rotate", "rotate_norx", "monotonic", "energy", "failure_exact"):
+    if w in ("taper", "rotate", "rotate_norx", "monotonic", "energy", "failure_exact", "spar_within_wing", "fuel_vol_delta"):
         mesh = build_mesh(desc["mesh"])
         kind = desc["mesh"]["kind"]
         sym = kind in ("left", "right")
@@ -514,6 +514,26 @@ def bespoke_verdict(desc):
         for model, ncol in (("tube", 2), ("wingbox", 4)):
             comp = FailureExact(surface={"name": "w", "mesh": mesh, "symmetry": sym, "yield": 2e8, "fem_model_type": model})
             n += _judge_alone(out, comp, {"vonmises": rng.uniform(1e5, 5e8, size=(ny - 1, ncol))}, rng, eps, "FailureExact")
+    elif w == "multicd":
+        from openaerostruct.integration.multipoint_comps import MultiCD
+
+        npt = 1 + desc["seed"] % 4
+        n = _judge_alone(out, MultiCD(n_points=npt), {"%d_CD" % i: rng.uniform(0.005, 0.05, size=1) for i in range(npt)}, rng, eps,
+                         "MultiCD")
+    elif w == "spar_within_wing":
+        from openaerostruct.structures.spar_within_wing import SparWithinWing
+
+        ny = mesh.shape[1]
+        comp = SparWithinWing(surface={"name": "w", "mesh": mesh, "symmetry": sym, "fem_origin": 0.35})
+        n = _judge_alone(out, comp, {"mesh": mesh, "radius": rng.uniform(0.02, 0.1, size=ny - 1),
+                                     "t_over_c": rng.uniform(0.08, 0.16, size=ny - 1)}, rng, eps, "SparWithinWing")
+    elif w == "fuel_vol_delta":
+        from openaerostruct.structures.wingbox_fuel_vol_delta import WingboxFuelVolDelta
+
+        ny = mesh.shape[1]
+        comp = WingboxFuelVolDelta(surface={"name": "w", "mesh": mesh, "symmetry": sym, "fuel_density": 803.0, "Wf_reserve": 150.0})
+        n = _judge_alone(out, comp, {"fuelburn": rng.uniform(1e2, 1e4, size=1), "fuel_vols": rng.uniform(0.01, 0.5, size=ny - 1)},
+                         rng, eps, "WingboxFuelVolDelta")
     elif w == "atmos":
         from openaerostruct.common.atmos_comp import AtmosComp
 
